@@ -6,6 +6,10 @@
 //   seq — operations strictly one after the other (the proved sequential theorem's quantifier)
 //   win — a connection is injected at the mechanical yield point between closeOutdatedProxies and
 //         buildRouter of the real RebuildTunnels (zap hook on "Shutting down proxy").
+//   rej — the operator's edit (retarget / drop / add hostnames) first arrives in a file that
+//         validation rejects (typo in a scheme, unknown header mode, …) or that cannot be read at
+//         all, then in a corrected file; connections before, in between and after.
+// Every state line also carries the tunnel list the client itself holds (Configuration.Tunnels).
 package main
 
 import (
@@ -74,6 +78,34 @@ func parseTuns(s string) []tun {
 	return ts
 }
 
+// symbolic targets that Config.validate rejects
+var badTarget = map[string]string{
+	"!scheme": "htp://127.0.0.1:1", // typo in the scheme
+	"!parse":  "http://[::1",       // url.Parse fails
+	"!empty":  "",                  // no target at all
+	"!ftp":    "ftp://127.0.0.1:21",
+}
+
+// accepted mirrors, for the generator's bookkeeping only (which list the NEXT edit starts from),
+// whether a reload of ts is expected to be applied; the verdict on the client's behaviour is the model's.
+func accepted(ts []tun) bool {
+	for _, t := range ts {
+		if strings.HasPrefix(t.target, "!") {
+			return false
+		}
+		switch t.hdrMode {
+		case "", "target", "hostname":
+		case "custom":
+			if t.hdrHost == "" {
+				return false
+			}
+		default:
+			return false
+		}
+	}
+	return true
+}
+
 var (
 	backendURL  = map[string]string{} // name -> URL
 	backendHost = map[string]string{} // 127.0.0.1:port -> name
@@ -108,7 +140,11 @@ func startBackends() {
 func real(ts []tun) []client.Tunnel {
 	out := make([]client.Tunnel, len(ts))
 	for i, t := range ts {
-		out[i] = client.Tunnel{Target: backendURL[t.target], Hostname: t.host, Insecure: t.insecure,
+		target, ok := backendURL[t.target]
+		if !ok {
+			target = badTarget[t.target]
+		}
+		out[i] = client.Tunnel{Target: target, Hostname: t.host, Insecure: t.insecure,
 			ProxyHeaderTimeout: time.Duration(t.timeout) * time.Second, ProxyHeaderHost: t.hdrHost, ProxyHeaderMode: t.hdrMode}
 	}
 	return out
@@ -116,6 +152,11 @@ func real(ts []tun) []client.Tunnel {
 
 func symTarget(u string) string {
 	for n, x := range backendURL {
+		if x == u {
+			return n
+		}
+	}
+	for n, x := range badTarget {
 		if x == u {
 			return n
 		}
@@ -146,14 +187,29 @@ func dump(v *client.VerifC44) string {
 	for _, k := range ks {
 		ps = append(ps, fmt.Sprintf("%s:%d", k, int(p[k]/time.Second)))
 	}
-	return list(rs) + " " + list(ps)
+	var cs []string
+	for _, t := range v.Tunnels() {
+		cs = append(cs, tun{t.Hostname, symTarget(t.Target), t.Insecure, int(t.ProxyHeaderTimeout / time.Second),
+			t.ProxyHeaderHost, t.ProxyHeaderMode}.tok())
+	}
+	return list(rs) + " " + list(ps) + " " + list(cs)
 }
+
+var errPanic = fmt.Errorf("panic in handleIncomingDelegation")
 
 // incoming performs one real connection for hostname h; returns the observation.
 func incoming(v *client.VerifC44, h string, mayBlock bool) (obs string, late func() string) {
 	c1, c2 := net.Pipe()
 	errc := make(chan error, 1)
-	go func() { errc <- v.Incoming(h, c2) }()
+	go func() {
+		// a panic inside the code under test is an observation, not a harness crash
+		defer func() {
+			if p := recover(); p != nil {
+				errc <- errPanic
+			}
+		}()
+		errc <- v.Incoming(h, c2)
+	}()
 	exchange := func() string {
 		defer c1.Close()
 		c1.SetDeadline(time.Now().Add(10 * time.Second))
@@ -185,6 +241,10 @@ func incoming(v *client.VerifC44, h string, mayBlock bool) (obs string, late fun
 		return fmt.Sprintf("T=%s;H=%s;R=%d", id, host, r)
 	}
 	finish := func(err error) string {
+		if err == errPanic {
+			c1.Close()
+			return "panic"
+		}
 		if err != nil {
 			c1.Close()
 			return "nf"
@@ -208,6 +268,7 @@ type caseRun struct {
 	v    *client.VerifC44
 	cur  []tun
 	kind string
+	dead bool // the client panicked while serving a connection: the rest of the case is skipped
 }
 
 func (c *caseRun) emit(lhs, obs string) {
@@ -235,20 +296,50 @@ func newCase(r *hlib.Run, kind string, ts []tun) *caseRun {
 func (c *caseRun) close() { c.v.Shutdown(); os.RemoveAll(c.dir) }
 
 func (c *caseRun) rebuild(ts []tun) {
+	if c.dead {
+		return
+	}
 	c.v.Rebuild(real(ts))
 	c.cur = ts
 	c.emit("rebuild "+toks(ts), "")
 	c.r.Count("op:rebuild")
 }
 func (c *caseRun) reload(ts []tun) {
+	if c.dead {
+		return
+	}
 	if err := c.v.Reload(real(ts)); err != nil {
 		panic(err)
 	}
-	c.cur = ts
+	if accepted(ts) {
+		c.cur = ts
+		c.r.Count("op:reload")
+	} else {
+		c.r.Count("op:reload-rejected")
+	}
 	c.emit("reload "+toks(ts), "")
-	c.r.Count("op:reload")
+}
+
+// reloadx: the config file is gone / is not YAML when the reload is requested
+func (c *caseRun) reloadx(kind string) {
+	if c.dead {
+		return
+	}
+	switch kind {
+	case "missing":
+		os.Remove(c.v.Path())
+	default:
+		kind = "garbage"
+		os.WriteFile(c.v.Path(), []byte("version: 2\ntunnels: [ {target: \"http://127.0.0.1:1\", hostname: h1\n\t- oops"), 0o644)
+	}
+	c.v.ReloadFile()
+	c.emit("reloadx "+kind, "")
+	c.r.Count("op:reload-unreadable")
 }
 func (c *caseRun) unpublish(h string) {
+	if c.dead {
+		return
+	}
 	c.v.Unpublish(h)
 	for i, t := range c.cur {
 		if t.host == h {
@@ -260,10 +351,11 @@ func (c *caseRun) unpublish(h string) {
 	c.r.Count("op:unpublish")
 }
 func (c *caseRun) incoming(h string) {
-	if h == "" { // not a hostname (a tunnel whose hostname request failed): never probed
+	if h == "" || c.dead { // "" is not a hostname (a tunnel whose hostname request failed): never probed
 		return
 	}
 	obs, _ := incoming(c.v, h, false)
+	c.dead = obs == "panic"
 	c.emit("incoming "+h+" "+c.kind, obs)
 	c.r.Count("op:incoming")
 	c.r.Count("obs:" + strings.SplitN(strings.SplitN(obs, ";", 2)[0], "=", 2)[0])
@@ -272,6 +364,9 @@ func (c *caseRun) incoming(h string) {
 
 // window runs RebuildTunnels(ts) with the connections `during` injected at the yield point.
 func (c *caseRun) window(ts []tun, during []string) {
+	if c.dead {
+		return
+	}
 	if !c.v.BeginRebuild(real(ts)) {
 		// nothing to close: the rebuild ran to completion
 		c.cur = ts
@@ -306,7 +401,7 @@ func (c *caseRun) window(ts []tun, during []string) {
 
 func main() {
 	r := hlib.Start()
-	r.Rule = "case = client on a random configuration + a sequence of RebuildTunnels / reload / UnpublishTunnel / incoming HTTP connections (real exchange with local backends); seq cases: operations strictly sequential; win cases: connections injected between closeOutdatedProxies and buildRouter of the real RebuildTunnels; evaluation = one incoming connection; non-trivial = distinct (configuration, hostname) probed; new lists differ from the old in exactly one of: target, insecure, header timeout, header host, header mode, removal, addition, duplicate hostname, order"
+	r.Rule = "case = client on a random configuration + a sequence of RebuildTunnels / reload / UnpublishTunnel / incoming HTTP connections (real exchange with local backends); seq cases: operations strictly sequential; win cases: connections injected between closeOutdatedProxies and buildRouter of the real RebuildTunnels; evaluation = one incoming connection; rej cases: the edit arrives first in a config file that validation rejects (bad scheme / unparsable / empty target, unknown header mode, custom mode without header host; on a new or an existing tunnel, at any position) or that is missing / undecodable, then corrected by reload or rebuild, connections before / in between / after; non-trivial = distinct (configuration, hostname) probed; new lists differ from the old in exactly one of: target, insecure, header timeout, header host, header mode, removal, addition, duplicate hostname, order"
 	rng := hlib.NewRng(r.Seed)
 	wd, _ := os.Getwd()
 	workdir = filepath.Join(wd, "c44work")
@@ -339,6 +434,8 @@ func main() {
 				c.rebuild(parseTuns(t[1]))
 			case "reload":
 				c.reload(parseTuns(t[1]))
+			case "reloadx":
+				c.reloadx(t[1])
 			case "unpublish":
 				c.unpublish(t[1])
 			case "wbegin":
@@ -450,6 +547,94 @@ func main() {
 		return n, h, "same"
 	}
 
+	// breakList makes a list that validation rejects out of a valid one: one tunnel (a new one, or an
+	// existing one, at any position) gets an unusable target or header mode
+	breakList := func(ts []tun) ([]tun, string) {
+		n := append([]tun{}, ts...)
+		bad := hlib.Pick(rng, []string{"!scheme", "!scheme", "!parse", "!empty", "!ftp"})
+		switch k := rng.Intn(6); {
+		case k <= 1 || len(n) == 0: // a new tunnel with a typo, somewhere in the list
+			t := tun{host: hlib.Pick(rng, []string{"typo.dev", "h4", "h1"}), target: bad}
+			i := rng.Intn(len(n) + 1)
+			n = append(n[:i:i], append([]tun{t}, n[i:]...)...)
+			return n, "new-bad-target"
+		case k == 2:
+			n[rng.Intn(len(n))].target = bad
+			return n, "bad-target"
+		case k == 3:
+			n[rng.Intn(len(n))].hdrMode = hlib.Pick(rng, []string{"bogus", "Hostname", "host"})
+			return n, "bad-mode"
+		case k == 4:
+			i := rng.Intn(len(n))
+			n[i].hdrMode, n[i].hdrHost = "custom", ""
+			return n, "custom-without-host"
+		default:
+			t := tun{host: "typo.dev", target: hlib.Pick(rng, plain), hdrMode: "custom"}
+			return append(n, t), "new-custom-without-host"
+		}
+	}
+	// rejCase: every hostname has a cached proxy; the operator's edit arrives first in a rejected
+	// file (connections meanwhile), then corrected — by reload, by a rebuild, or after a second
+	// rejected attempt; afterwards every hostname is probed
+	rejCase := func() {
+		ts := randList()
+		for _, h := range hosts {
+			if len(ts) >= 2 {
+				break
+			}
+			have := false
+			for _, t := range ts {
+				have = have || t.host == h
+			}
+			if !have {
+				ts = append(ts, randTun(h))
+			}
+		}
+		c := newCase(r, "rej", ts)
+		defer c.close()
+		c.rebuild(c.cur)
+		for _, t := range c.cur {
+			c.incoming(t.host)
+		}
+		good := c.cur
+		var concerned []string
+		for k, m := 0, 1+rng.Intn(3); k < m; k++ {
+			var h, what string
+			good, h, what = mutate(good)
+			concerned = append(concerned, h)
+			r.Count("change:" + what)
+		}
+		if rng.Chance(12) {
+			c.reloadx(hlib.Pick(rng, []string{"missing", "garbage"}))
+		}
+		bad, why := breakList(good)
+		r.Count("rejected:" + why)
+		c.reload(bad)
+		if rng.Chance(50) {
+			c.incoming(hlib.Pick(rng, concerned))
+		}
+		switch x := rng.Intn(10); {
+		case x < 5:
+			c.reload(good)
+			r.Count("corrected:reload")
+		case x < 7:
+			c.rebuild(good)
+			r.Count("corrected:rebuild")
+		case x < 9:
+			bad2, why2 := breakList(good)
+			r.Count("rejected:" + why2)
+			c.reload(bad2)
+			c.reload(good)
+			r.Count("corrected:second-attempt")
+		default:
+			r.Count("corrected:never")
+		}
+		for _, h := range hosts {
+			c.incoming(h)
+		}
+		r.Count("case:rej")
+	}
+
 	seqCase := func() {
 		c := newCase(r, "seq", randList())
 		defer c.close()
@@ -464,11 +649,21 @@ func main() {
 				c.rebuild(n)
 				r.Count("change:" + what)
 				c.incoming(h)
-			case x < 88:
+			case x < 86:
 				n, h, what := mutate(c.cur)
 				c.reload(n)
 				r.Count("change:" + what)
 				c.incoming(h)
+			case x < 91:
+				n, h, what := mutate(c.cur)
+				bad, why := breakList(n)
+				c.reload(bad)
+				r.Count("change:" + what)
+				r.Count("rejected:" + why)
+				c.incoming(h)
+			case x < 92:
+				c.reloadx(hlib.Pick(rng, []string{"missing", "garbage"}))
+				c.incoming(hlib.Pick(rng, hosts))
 			default:
 				h := hlib.Pick(rng, hosts)
 				c.unpublish(h)
@@ -530,9 +725,9 @@ func main() {
 		r.Count("op:diff")
 	}
 
-	nSeq, nWin, nDiff := 60, 6, 2000
+	nSeq, nWin, nRej, nDiff := 60, 6, 25, 2000
 	if r.Thorough() {
-		nSeq, nWin, nDiff = 1200, 60, 60000
+		nSeq, nWin, nRej, nDiff = 1200, 60, 500, 60000
 	}
 	for i := 0; i < nDiff; i++ {
 		diffLine()
@@ -540,6 +735,9 @@ func main() {
 	for i := 0; i < nSeq; i++ {
 		seqCase()
 		r.Count("case:seq")
+	}
+	for i := 0; i < nRej; i++ {
+		rejCase()
 	}
 	for i := 0; i < nWin; i++ {
 		winCase()
